@@ -86,7 +86,7 @@ func TestC14(t *testing.T) {
 	}
 	perCase := 8
 	nCases := (len(reqs) + perCase - 1) / perCase
-	n := e.Pick(24, nCases*40)
+	n := e.Pick(24, nCases*300)
 	vlib.RunCases(t, "C14", "admission", n, func(c *vlib.Case) vlib.Result {
 		var res vlib.Result
 		rng := c.Rng
